@@ -39,10 +39,46 @@ inductive SwapT : T → T → Prop
   | swap {i i' : Nat} {x x' : Option Nat} {l l' : Option Frac} {s s' : Option String} {a a' b b' : T} :
       SwapT a a' → SwapT b b' → SwapT (.node i x l s [a, b]) (.node i' x' l' s' [b', a'])
 
-/-- a scoring call of a history is inside the statement's domain for the tree `t` -/
-def OpOk (t : T) : Op → Prop
-  | .clone _ => True
-  | .score _ m w => ∃ bv n, View m t bv ∧ RectM m n ∧ WOk w n
+/-- the statement's trees: fully bifurcating with a binary root (`rooted`), or in the usual unrooted form with a basal
+    trifurcation (`unrooted`), which is read as `((a, b), c)` -/
+inductive ViewU (m : Matrix) : T → BV → Prop
+  | rooted {t : T} {bv : BV} : View m t bv → ViewU m t bv
+  | unrooted {i : Nat} {x : Option Nat} {l : Option Frac} {s : Option String} {a b c : T} {ba bb bc : BV} :
+      View m a ba → View m b bb → View m c bc → ViewU m (.node i x l s [a, b, c]) (.node (.node ba bb) bc)
+
+/-- what a call lets its caller observe: the exception class, or the score and the per-character list -/
+def obs : Except Err St → Except Err (Nat × List Nat)
+  | .error e => .error e
+  | .ok st => .ok (st.score, st.bychar)
+
+def obsT : Except Err (Row × Nat × List Nat) → Except Err (Nat × List Nat)
+  | .error e => .error e
+  | .ok (_, sc, bc) => .ok (sc, bc)
+
+/-- observable result of one history step -/
+inductive Obs where
+  | call (r : Except Err (Nat × List Nat))
+  | cloned
+  | badObj
+
+def Res.toObs : Res → Obs
+  | .ok s bc => .call (.ok (s, bc))
+  | .err e => .call (.error e)
+  | .cloned => .cloned
+  | .badObj => .badObj
+
+/-- the reference semantics of a history: every scoring call is made on a FRESH copy of the tree (no attributes); only
+    the number of live tree objects is tracked -/
+def refHist (t : T) : Nat → List Op → List Obs
+  | _, [] => []
+  | n, .clone j :: rest => if j < n then .cloned :: refHist t (n + 1) rest else .badObj :: refHist t n rest
+  | n, .score j m w :: rest =>
+    if j < n then .call (obs (parsimony m w [] t)) :: refHist t n rest else .badObj :: refHist t n rest
+
+/-- `v` is a proper descendant subtree of `t` (so there is an edge above it) -/
+inductive Below : T → T → Prop
+  | child {v t : T} : v ∈ t.cs → Below v t
+  | deeper {v w t : T} : Below w t → v ∈ w.cs → Below v t
 
 namespace Aux
 
@@ -88,18 +124,41 @@ theorem view_nchar {m : Matrix} {n : Nat} {t : T} {bv : BV} (hv : View m t bv) (
       simpa [nchar] using this
   | node _ _ iha _ => exact iha
 
-/-- the heart: on a viewed tree with distinct node identities the call succeeds and returns `accB`'s accumulators,
-    for any attributes stored on the nodes -/
-theorem parsimony_core {m : Matrix} {t : T} {bv : BV} (hv : View m t bv) (hid : (ids t).Nodup)
-    (w : Option (List Nat)) (attrs : Attrs) :
-    ∃ st, parsimony m w attrs t = .ok st ∧
-      st.score = (accB (weightsOf m w) bv 0
-                    (List.replicate (nchar m) 0)).2.1 ∧
-      st.bychar = (accB (weightsOf m w) bv 0
-                    (List.replicate (nchar m) 0)).2.2 := by
-  obtain ⟨st', hr, _, hs, hb, _⟩ := run_post (ws := weightsOf m w)
-    hv hid { attrs := attrs, score := 0, bychar := List.replicate (nchar m) 0 }
-  exact ⟨st', by simpa [parsimony] using hr, hs, hb⟩
+/-- the heart (refinement, any input): what a call lets its caller observe is the plain recursion `accT` started from zero,
+    whatever attributes are stored on the nodes -/
+theorem parsimony_obs (m : Matrix) (w : Option (List Nat)) (attrs : Attrs) {t : T} (hid : (ids t).Nodup) :
+    obs (parsimony m w attrs t) = obsT (accT m (weightsOf m w) t 0 (List.replicate (nchar m) 0)) := by
+  have h := run_T m (weightsOf m w) t hid { attrs := attrs, score := 0, bychar := List.replicate (nchar m) 0 }
+  cases hacc : accT m (weightsOf m w) t 0 (List.replicate (nchar m) 0) with
+  | error e =>
+    have := h.1 e hacc
+    simp only [parsimony, this, obs, obsT]
+  | ok v =>
+    obtain ⟨row, sc, bc⟩ := v
+    obtain ⟨st', hr, _, hs, hb, _⟩ := h.2 row sc bc hacc
+    simp only [parsimony, hr, obs, obsT, hs, hb]
+
+theorem viewU_rect {m : Matrix} {n : Nat} {t : T} {bv : BV} (hv : ViewU m t bv) (hm : RectM m n) :
+    bv.All (fun row => row.length = n) ∧ ∀ c, c < n → NonEmptyLeaves (col c bv) := by
+  cases hv with
+  | rooted h => exact view_rect h hm
+  | unrooted ha hb hc =>
+    have ra := view_rect ha hm
+    have rb := view_rect hb hm
+    have rc := view_rect hc hm
+    exact ⟨⟨⟨ra.1, rb.1⟩, rc.1⟩, fun c hc' => ⟨⟨ra.2 c hc', rb.2 c hc'⟩, rc.2 c hc'⟩⟩
+
+theorem viewU_nchar {m : Matrix} {n : Nat} {t : T} {bv : BV} (hv : ViewU m t bv) (hm : RectM m n) : nchar m = n := by
+  cases hv with
+  | rooted h => exact view_nchar h hm
+  | unrooted ha _ _ => exact view_nchar ha hm
+
+theorem viewU_spec {m : Matrix} {ws : List Nat} {n : Nat} (hws : ws.length = n) {t : T} {bv : BV} (hv : ViewU m t bv)
+    (hm : RectM m n) : SpecT m ws n t bv := by
+  cases hv with
+  | rooted h => exact spec_view hws h (view_rect h hm).1
+  | unrooted ha hb hc =>
+    exact spec_tri hws ha hb hc (view_rect ha hm).1 (view_rect hb hm).1 (view_rect hc hm).1 _ _ _ _
 
 theorem ws_length {m : Matrix} {n : Nat} (hn : nchar m = n) (w : Option (List Nat)) (hw : WOk w n) :
     (weightsOf m w).length = n := by
@@ -114,16 +173,17 @@ theorem ws_getD {m : Matrix} {n : Nat} (hn : nchar m = n) (w : Option (List Nat)
   | some l => simp [wt, weightsOf]
 
 /-- everything about one call: success, per-character values, total -/
-theorem call_spec {m : Matrix} {n : Nat} {t : T} {bv : BV} (hv : View m t bv) (hm : RectM m n)
+theorem call_spec {m : Matrix} {n : Nat} {t : T} {bv : BV} (hv : ViewU m t bv) (hm : RectM m n)
     (hid : (ids t).Nodup) (w : Option (List Nat)) (hw : WOk w n) (attrs : Attrs) :
     ∃ st, parsimony m w attrs t = .ok st ∧ st.bychar.length = n ∧
       (∀ c, c < n → st.bychar.getD c 0 = wt w c * (fitch (col c bv)).2) ∧
       st.score = sumL st.bychar := by
-  obtain ⟨st, hp, hs, hb⟩ := parsimony_core hv hid w attrs
-  have hn := view_nchar hv hm
+  have hn := viewU_nchar hv hm
   have hz : (List.replicate (nchar m) 0).length = n := by simp [hn]
-  obtain ⟨_, e2, e3, e4⟩ := accB_spec _ n (ws_length hn w hw) bv (view_rect hv hm).1 0 _ hz
-  refine ⟨st, hp, by rw [hb]; exact e2, ?_, ?_⟩
+  obtain ⟨row, sc, bc, hacc, _, e2, e3, e4⟩ := viewU_spec (ws_length hn w hw) hv hm 0 _ hz
+  obtain ⟨st, hp, _, hs, hb, _⟩ :=
+    (run_T m (weightsOf m w) t hid { attrs := attrs, score := 0, bychar := List.replicate (nchar m) 0 }).2 row sc bc hacc
+  refine ⟨st, by simpa [parsimony] using hp, by rw [hb]; exact e2, ?_, ?_⟩
   · intro c hc
     rw [hb, (e4 c hc).2, ws_getD hn w c hc, getD_replicate 0 0 _ c (by omega)]
     omega
@@ -224,7 +284,7 @@ theorem view_reroot {m : Matrix} {n : Nat} (hm : RectM m n) : ∀ (path : List S
     exact fitch_rot (Rot.map _ hrot) ((view_rect hv hm).2 c hc)
 
 /-- two successful calls whose per-character Fitch counts agree return the same score and per-character list -/
-theorem same_result {m : Matrix} {n : Nat} {t t' : T} {bv bv' : BV} (hv : View m t bv) (hv' : View m t' bv')
+theorem same_result {m : Matrix} {n : Nat} {t t' : T} {bv bv' : BV} (hv : ViewU m t bv) (hv' : ViewU m t' bv')
     (hm : RectM m n) (hid : (ids t).Nodup) (hid' : (ids t').Nodup) (w : Option (List Nat)) (hw : WOk w n)
     (heq : ∀ c, c < n → (fitch (col c bv)).2 = (fitch (col c bv')).2) (attrs attrs' : Attrs) :
     ∃ st st', parsimony m w attrs t = .ok st ∧ parsimony m w attrs' t' = .ok st' ∧
@@ -235,6 +295,66 @@ theorem same_result {m : Matrix} {n : Nat} {t t' : T} {bv bv' : BV} (hv : View m
     ext_getD n _ _ hl hl' (fun c hc => by rw [hb c hc, hb' c hc, heq c hc])
   exact ⟨st, st', hp, hp', by rw [hs, hs', e], e⟩
 
+/-- any sequence of root slides keeps the view and the distinctness of identities (no matrix-shape hypothesis) -/
+theorem view_reroot_view {m : Matrix} : ∀ (path : List Step) {t : T} {bv : BV}, View m t bv → (ids t).Nodup →
+    ∃ bv', View m (reroot path t) bv' ∧ (ids (reroot path t)).Nodup
+  | [], _, bv, hv, hid => ⟨bv, hv, hid⟩
+  | s :: path, _, _, hv, hid => by
+    obtain ⟨bv1, hv1, _, hid1⟩ := view_rootStep hv hid s
+    obtain ⟨bv2, hv2, hid2⟩ := view_reroot_view path hv1 hid1
+    exact ⟨bv2, by simpa [reroot] using hv2, by simpa [reroot] using hid2⟩
+
+theorem reroot_snoc (path : List Step) (s : Step) (t : T) : reroot (path ++ [s]) t = rootStep s (reroot path t) := by
+  simp [reroot, List.foldl_append]
+
+/-- number of changes of an assignment around a trifurcating root with state `s` -/
+def changes3 (s : Nat) (x y z : A) : Nat :=
+  changes x + changes y + changes z + d x.root s + d y.root s + d z.root s
+
+/-- the Fitch count of `((a, b), c)` is the minimum number of changes of the tree with the trifurcating root `(a, b, c)` -/
+theorem tri_min (a b c : B) (ha : NonEmptyLeaves a) (hb : NonEmptyLeaves b) (hc : NonEmptyLeaves c) :
+    (∀ s x y z, Valid a x → Valid b y → Valid c z → (fitch (.node (.node a b) c)).2 ≤ changes3 s x y z) ∧
+    (∃ s x y z, Valid a x ∧ Valid b y ∧ Valid c z ∧ changes3 s x y z = (fitch (.node (.node a b) c)).2) := by
+  have hmin := fitch_minimal (.node (.node a b) c) ⟨⟨ha, hb⟩, hc⟩
+  have lower : ∀ s x y z, Valid a x → Valid b y → Valid c z → (fitch (.node (.node a b) c)).2 ≤ changes3 s x y z := by
+    intro s x y z hx hy hz
+    have := hmin.1 (.node s (.node s x y) z) ⟨⟨hx, hy⟩, hz⟩
+    simp only [changes, root_node, d_self] at this
+    simp only [changes3]; omega
+  refine ⟨lower, ?_⟩
+  obtain ⟨asg, hv, hc'⟩ := hmin.2
+  cases asg with
+  | leaf s => simp [Valid] at hv
+  | node r inner γ =>
+    cases inner with
+    | leaf s => simp [Valid] at hv
+    | node y α β =>
+      simp only [Valid] at hv
+      refine ⟨y, α, β, γ, hv.1.1, hv.1.2, hv.2, ?_⟩
+      have lo := lower y α β γ hv.1.1 hv.1.2 hv.2
+      have tri := d_triangle γ.root r y
+      have hcomm := d_comm y r
+      simp only [changes, root_node] at hc'
+      simp only [changes3] at lo ⊢
+      omega
+
+theorem symbolSet_nonzero (htab : ∀ a, a ∈ C16Alphabets.alphabets → ∀ e, e ∈ a.2 → e.2.1 ≠ 0 ∧ e.2.2 ≠ 0)
+    (alph : String) (g : Bool) (c : Char) (v : SS) (h : symbolSet alph g c = some v) : v ≠ 0 := by
+  unfold symbolSet at h
+  split at h
+  · cases h
+  · rename_i nm tab hf
+    have ha := List.mem_of_find?_eq_some hf
+    split at h
+    · cases h
+    · rename_i sym full miss he
+      have hmem := List.mem_of_find?_eq_some he
+      have := htab _ ha _ hmem
+      cases h
+      cases g
+      · simpa using this.1
+      · simpa using this.2
+
 end Aux
 open Aux
 
@@ -242,7 +362,7 @@ open Aux
 distinct objects and whose leaf taxa all have rows, `parsimony_score` succeeds — whatever `state_sets` attributes the
 nodes carried before the call — its per-character list has one entry per character, entry `c` being the weight of `c` times
 the Fitch count of character `c`, and the returned score is the weighted sum over the characters. -/
-theorem score_spec {m : Matrix} {n : Nat} {t : T} {bv : BV} (hv : View m t bv) (hm : RectM m n)
+theorem score_spec {m : Matrix} {n : Nat} {t : T} {bv : BV} (hv : ViewU m t bv) (hm : RectM m n)
     (hid : (ids t).Nodup) (w : Option (List Nat)) (hw : WOk w n) (attrs : Attrs) :
     ∃ st, parsimony m w attrs t = .ok st ∧ st.bychar.length = n ∧
       (∀ c, c < n → st.bychar.getD c 0 = wt w c * (fitch (col c bv)).2) ∧
@@ -255,7 +375,7 @@ theorem score_spec {m : Matrix} {n : Nat} {t : T} {bv : BV} (hv : View m t bv) (
 /-- **Minimality** (clause a).  The returned score is the minimum, over all families of assignments of states to all nodes
 (one assignment per character, each agreeing with the leaf state sets: ambiguity codes and gaps are state sets), of the
 weighted number of state changes along edges: no family costs less, and some family costs exactly the score. -/
-theorem score_minimal {m : Matrix} {n : Nat} {t : T} {bv : BV} (hv : View m t bv) (hm : RectM m n)
+theorem score_minimal {m : Matrix} {n : Nat} {t : T} {bv : BV} (hv : ViewU m t bv) (hm : RectM m n)
     (hid : (ids t).Nodup) (w : Option (List Nat)) (hw : WOk w n) (attrs : Attrs) :
     ∃ st, parsimony m w attrs t = .ok st ∧
       (∀ asg : Nat → A, (∀ c, c < n → Valid (col c bv) (asg c)) →
@@ -263,7 +383,7 @@ theorem score_minimal {m : Matrix} {n : Nat} {t : T} {bv : BV} (hv : View m t bv
       (∃ asg : Nat → A, (∀ c, c < n → Valid (col c bv) (asg c)) ∧
         sumTo n (fun c => wt w c * changes (asg c)) = st.score) := by
   obtain ⟨st, hp, _, _, hs⟩ := score_spec hv hm hid w hw attrs
-  have hne := (view_rect hv hm).2
+  have hne := (viewU_rect hv hm).2
   refine ⟨st, hp, ?_, ?_⟩
   · intro asg hval
     rw [hs]
@@ -283,7 +403,7 @@ theorem score_minimal {m : Matrix} {n : Nat} {t : T} {bv : BV} (hv : View m t bv
     rw [(Classical.choose_spec (hex c) hc).2]
 
 /-- **Per-character scores add up to the total** (clause a). -/
-theorem bychar_sum {m : Matrix} {n : Nat} {t : T} {bv : BV} (hv : View m t bv) (hm : RectM m n)
+theorem bychar_sum {m : Matrix} {n : Nat} {t : T} {bv : BV} (hv : ViewU m t bv) (hm : RectM m n)
     (hid : (ids t).Nodup) (w : Option (List Nat)) (hw : WOk w n) (attrs : Attrs) (st : St)
     (h : parsimony m w attrs t = .ok st) : st.score = sumL st.bychar := by
   obtain ⟨st', hp, _, _, hs⟩ := call_spec hv hm hid w hw attrs
@@ -294,45 +414,58 @@ theorem bychar_sum {m : Matrix} {n : Nat} {t : T} {bv : BV} (hv : View m t bv) (
 /-- **History independence, one call** (clause c).  Whatever attributes the nodes carry — left by any earlier scoring calls
 with any matrices, or copied from another tree object by `clone` — the call returns what it returns on a fresh copy
 (no attributes). -/
-theorem history_independent {m : Matrix} {n : Nat} {t : T} {bv : BV} (hv : View m t bv) (hm : RectM m n)
+theorem history_independent {m : Matrix} {n : Nat} {t : T} {bv : BV} (hv : ViewU m t bv) (hm : RectM m n)
     (hid : (ids t).Nodup) (w : Option (List Nat)) (hw : WOk w n) (attrs : Attrs) :
     ∃ st st0, parsimony m w attrs t = .ok st ∧ parsimony m w [] t = .ok st0 ∧
       st.score = st0.score ∧ st.bychar = st0.bychar :=
   same_result hv hv hm hid hid w hw (fun _ _ => rfl) attrs []
 
-/-- **History independence, whole histories** (clause c).  The results of a history of scoring calls and clonings on tree
-objects of one topology do not depend on the attributes the objects start with; in particular every call returns the value
-it returns when it is the only call ever made (`runHist t [[]] [op]`). -/
-theorem history_results_independent (t : T) (hid : (ids t).Nodup) : ∀ (ops : List Op) (objs objs' : List Attrs),
-    (∀ op, op ∈ ops → OpOk t op) → objs.length = objs'.length →
-    (runHist t objs ops).map (fun r => match r with
-      | .ok s bc => (some (s, bc), 0) | .err _ => (none, 1) | .cloned => (none, 2) | .badObj => (none, 3)) =
-    (runHist t objs' ops).map (fun r => match r with
-      | .ok s bc => (some (s, bc), 0) | .err _ => (none, 1) | .cloned => (none, 2) | .badObj => (none, 3))
-  | [], _, _, _, _ => rfl
-  | .clone j :: rest, objs, objs', hok, hlen => by
-    have ih := fun o o' h => history_results_independent t hid rest o o' (fun op h' => hok op (List.mem_cons_of_mem _ h')) h
+/-- **History independence for every input** (clause c, refinement).  For ANY tree whose nodes are distinct objects
+(polytomies, unary nodes, leaves without rows included), any matrix and any weights: what a call lets its caller observe —
+the exception class, or the score and per-character list — does not depend on the attributes stored on the nodes. -/
+theorem result_independent_of_attrs (m : Matrix) (w : Option (List Nat)) {t : T} (hid : (ids t).Nodup)
+    (attrs attrs' : Attrs) : obs (parsimony m w attrs t) = obs (parsimony m w attrs' t) := by
+  rw [parsimony_obs m w attrs hid, parsimony_obs m w attrs' hid]
+
+/-- **History independence, whole histories** (clause c).  In any history of scoring calls (with any matrices, failing calls
+included) and clonings on tree objects of one topology, every call lets its caller observe exactly what the same call
+observes on a fresh copy of the tree on which nothing was ever scored (`refHist`). -/
+theorem history_eq_fresh (t : T) (hid : (ids t).Nodup) : ∀ (ops : List Op) (objs : List Attrs),
+    (runHist t objs ops).map Res.toObs = refHist t objs.length ops
+  | [], _ => rfl
+  | .clone j :: rest, objs => by
     by_cases hj : j < objs.length
-    · have hj' : j < objs'.length := by omega
-      simp only [runHist, List.getElem?_eq_getElem hj, List.getElem?_eq_getElem hj', List.map_cons]
-      rw [ih (objs ++ [objs[j]]) (objs' ++ [objs'[j]]) (by simp [hlen])]
-    · have hj' : ¬ j < objs'.length := by omega
-      have e1 : objs[j]? = none := List.getElem?_eq_none (by omega)
-      have e2 : objs'[j]? = none := List.getElem?_eq_none (by omega)
-      simp only [runHist, e1, e2, List.map_cons]
-      rw [ih objs objs' hlen]
-  | .score j m w :: rest, objs, objs', hok, hlen => by
-    have ih := fun o o' h => history_results_independent t hid rest o o' (fun op h' => hok op (List.mem_cons_of_mem _ h')) h
-    by_cases hj : j < objs.length
-    · have hj' : j < objs'.length := by omega
-      obtain ⟨bv, n, hv, hm, hw⟩ := hok (.score j m w) (List.mem_cons_self)
-      obtain ⟨st, st', hp, hp', hs, hb⟩ := same_result hv hv hm hid hid w hw (fun _ _ => rfl) objs[j] objs'[j]
-      simp only [runHist, List.getElem?_eq_getElem hj, List.getElem?_eq_getElem hj', hp, hp', List.map_cons, hs, hb]
-      rw [ih (objs.set j st.attrs) (objs'.set j st'.attrs) (by simp [hlen])]
+    · simp only [runHist, List.getElem?_eq_getElem hj, List.map_cons, refHist, hj, if_true, Res.toObs]
+      rw [history_eq_fresh t hid rest (objs ++ [objs[j]])]
+      simp
     · have e1 : objs[j]? = none := List.getElem?_eq_none (by omega)
-      have e2 : objs'[j]? = none := List.getElem?_eq_none (by omega)
-      simp only [runHist, e1, e2, List.map_cons]
-      rw [ih objs objs' hlen]
+      simp only [runHist, e1, List.map_cons, refHist, hj, if_false, Res.toObs]
+      rw [history_eq_fresh t hid rest objs]
+  | .score j m w :: rest, objs => by
+    by_cases hj : j < objs.length
+    · have hind := result_independent_of_attrs m w hid objs[j] []
+      simp only [runHist, List.getElem?_eq_getElem hj, refHist, hj, if_true]
+      cases hp : parsimony m w objs[j] t with
+      | error e =>
+        rw [hp] at hind
+        rw [← hind]
+        simp only [List.map_cons, Res.toObs, obs]
+        rw [history_eq_fresh t hid rest objs]
+      | ok st =>
+        rw [hp] at hind
+        rw [← hind]
+        simp only [List.map_cons, Res.toObs, obs]
+        rw [history_eq_fresh t hid rest (objs.set j st.attrs)]
+        simp
+    · have e1 : objs[j]? = none := List.getElem?_eq_none (by omega)
+      simp only [runHist, e1, List.map_cons, refHist, hj, if_false, Res.toObs]
+      rw [history_eq_fresh t hid rest objs]
+
+/-- corollary: the observable results of a history do not depend on the attributes the objects start with -/
+theorem history_results_independent (t : T) (hid : (ids t).Nodup) (ops : List Op) (objs objs' : List Attrs)
+    (hlen : objs.length = objs'.length) :
+    (runHist t objs ops).map Res.toObs = (runHist t objs' ops).map Res.toObs := by
+  rw [history_eq_fresh t hid ops objs, history_eq_fresh t hid ops objs', hlen]
 
 /-- **Child order independence** (clause b).  Two copies that differ by exchanging the children of any set of nodes (and
 possibly in node identities, edge lengths, labels) get the same score and the same per-character list. -/
@@ -342,20 +475,135 @@ theorem child_order_independent {m : Matrix} {n : Nat} {t t' : T} {bv : BV} (hv 
     ∃ st st', parsimony m w attrs t = .ok st ∧ parsimony m w attrs' t' = .ok st' ∧
       st.score = st'.score ∧ st.bychar = st'.bychar := by
   obtain ⟨bv', hv', hs⟩ := view_swap hsw hv
-  refine same_result hv hv' hm hid hid' w hw (fun c _ => ?_) attrs attrs'
+  refine same_result (.rooted hv) (.rooted hv') hm hid hid' w hw (fun c _ => ?_) attrs attrs'
   have e : fitch (col c bv) = fitch (col c bv') := fitch_sw (Sw.map _ hs)
   rw [e]
 
 /-- **Root position independence** (clause b).  `reroot path t` slides the root of the bifurcating tree along `path` (each
-step moves it onto one of the four edges next to the current root edge; every edge of the unrooted tree is reached by some
-path, and the harness's re-rooted copies are exactly these, checked against `reroot` by the driver).  Score and
-per-character list are the same at every root position. -/
+step moves it onto one of the four edges next to the current root edge).  Score and per-character list are the same after
+every sequence of slides; `reroot_reaches_every_edge` shows that every edge of the tree is reached by some sequence.  (The
+harness's re-rooted copies are built by the same slides and compared with `reroot` through the driver.) -/
 theorem root_position_independent {m : Matrix} {n : Nat} {t : T} {bv : BV} (hv : View m t bv) (hm : RectM m n)
     (hid : (ids t).Nodup) (w : Option (List Nat)) (hw : WOk w n) (path : List Step) (attrs attrs' : Attrs) :
     ∃ st st', parsimony m w attrs t = .ok st ∧ parsimony m w attrs' (reroot path t) = .ok st' ∧
       st.score = st'.score ∧ st.bychar = st'.bychar := by
   obtain ⟨bv', hv', hid', heq⟩ := view_reroot hm path hv hid
-  exact same_result hv hv' hm hid hid' w hw heq attrs attrs'
+  exact same_result (.rooted hv) (.rooted hv') hm hid hid' w hw heq attrs attrs'
+
+
+/-- **Minimality for the unrooted form** (clause a).  For a tree with a basal trifurcation `(a, b, c)` the returned score is the
+minimum, over all families of assignments (one state for the trifurcating root and one assignment for each of the three
+subtrees, per character), of the weighted number of changes along the edges of that tree. -/
+theorem score_minimal_unrooted {m : Matrix} {n : Nat} {i : Nat} {x : Option Nat} {l : Option Frac} {s : Option String}
+    {a b c : T} {ba bb bc : BV} (ha : View m a ba) (hb : View m b bb) (hc : View m c bc) (hm : RectM m n)
+    (hid : (ids (.node i x l s [a, b, c])).Nodup) (w : Option (List Nat)) (hw : WOk w n) (attrs : Attrs) :
+    ∃ st, parsimony m w attrs (.node i x l s [a, b, c]) = .ok st ∧
+      (∀ (root : Nat → Nat) (xa xb xc : Nat → A),
+        (∀ k, k < n → Valid (col k ba) (xa k) ∧ Valid (col k bb) (xb k) ∧ Valid (col k bc) (xc k)) →
+        st.score ≤ sumTo n (fun k => wt w k * changes3 (root k) (xa k) (xb k) (xc k))) ∧
+      (∃ (root : Nat → Nat) (xa xb xc : Nat → A),
+        (∀ k, k < n → Valid (col k ba) (xa k) ∧ Valid (col k bb) (xb k) ∧ Valid (col k bc) (xc k)) ∧
+        sumTo n (fun k => wt w k * changes3 (root k) (xa k) (xb k) (xc k)) = st.score) := by
+  obtain ⟨st, hp, _, _, hs⟩ := score_spec (.unrooted ha hb hc) hm hid w hw attrs
+  have na := (view_rect ha hm).2
+  have nb := (view_rect hb hm).2
+  have nc := (view_rect hc hm).2
+  refine ⟨st, hp, ?_, ?_⟩
+  · intro root xa xb xc hval
+    rw [hs]
+    apply sumTo_le
+    intro k hk
+    have hv := hval k hk
+    exact Nat.mul_le_mul_left _ ((tri_min _ _ _ (na k hk) (nb k hk) (nc k hk)).1 (root k) _ _ _ hv.1 hv.2.1 hv.2.2)
+  · have hex : ∀ k, ∃ q : Nat × A × A × A, k < n →
+        Valid (col k ba) q.2.1 ∧ Valid (col k bb) q.2.2.1 ∧ Valid (col k bc) q.2.2.2 ∧
+        changes3 q.1 q.2.1 q.2.2.1 q.2.2.2 = (fitch (col k (.node (.node ba bb) bc))).2 := by
+      intro k
+      by_cases hk : k < n
+      · obtain ⟨r, x1, x2, x3, h1, h2, h3, h4⟩ := (tri_min _ _ _ (na k hk) (nb k hk) (nc k hk)).2
+        exact ⟨(r, x1, x2, x3), fun _ => ⟨h1, h2, h3, h4⟩⟩
+      · exact ⟨(0, .leaf 0, .leaf 0, .leaf 0), fun h => absurd h hk⟩
+    refine ⟨fun k => (Classical.choose (hex k)).1, fun k => (Classical.choose (hex k)).2.1,
+      fun k => (Classical.choose (hex k)).2.2.1, fun k => (Classical.choose (hex k)).2.2.2, ?_, ?_⟩
+    · intro k hk
+      have := Classical.choose_spec (hex k) hk
+      exact ⟨this.1, this.2.1, this.2.2.1⟩
+    · rw [hs]
+      apply sumTo_congr
+      intro k hk
+      rw [(Classical.choose_spec (hex k) hk).2.2.2]
+
+/-- **Every root position is reached** (clause b, completeness of the root slides).  For every proper descendant subtree `v` of a
+bifurcating tree — i.e. for every edge, the one above `v` — some sequence of root slides puts the root on that edge: `v`, with
+everything below it unchanged, becomes a child of the root.  Together with `root_position_independent`: the score is the same
+with the root on any edge. -/
+theorem reroot_reaches_every_edge {m : Matrix} {t : T} {bv : BV} (hv : View m t bv) (hid : (ids t).Nodup) {v : T}
+    (hb : Below v t) : ∃ path, v ∈ (reroot path t).cs := by
+  induction hb with
+  | child h => exact ⟨[], by simpa [reroot] using h⟩
+  | @deeper v w t hbw hvw ih =>
+    obtain ⟨p, hw⟩ := ih hv hid
+    obtain ⟨bv', hv', _⟩ := view_reroot_view p hv hid
+    generalize hreq : reroot p t = t' at hw hv'
+    have key : ∃ st, v ∈ (rootStep st t').cs := by
+      cases hv' with
+      | leaf _ => simp [T.cs] at hw
+      | @node r x l s0 a b ba bb hva hvb =>
+        simp only [T.cs, List.mem_cons, List.not_mem_nil, or_false] at hw
+        rcases hw with rfl | rfl
+        · cases hva with
+          | leaf _ => simp [T.cs] at hvw
+          | node h1 h2 =>
+            simp only [T.cs, List.mem_cons, List.not_mem_nil, or_false] at hvw
+            rcases hvw with rfl | rfl
+            · exact ⟨.LL, by simp [rootStep, T.cs]⟩
+            · exact ⟨.LR, by simp [rootStep, T.cs]⟩
+        · cases hvb with
+          | leaf _ => simp [T.cs] at hvw
+          | node h1 h2 =>
+            simp only [T.cs, List.mem_cons, List.not_mem_nil, or_false] at hvw
+            rcases hvw with rfl | rfl
+            · exact ⟨.RL, by simp [rootStep, T.cs]⟩
+            · exact ⟨.RR, by simp [rootStep, T.cs]⟩
+    obtain ⟨st, hst⟩ := key
+    exact ⟨p ++ [st], by rw [reroot_snoc, hreq]; exact hst⟩
+
+/-- **The generated symbol tables denote state sets** (clause a, "ambiguity codes treated as state sets and gaps as missing data
+when so requested"; a statement about the whole finite table regenerated from `charstatemodel.py`, not a sample): in every
+alphabet, no symbol denotes the empty set in either gap mode; with gaps as missing the gap symbol denotes what the missing-data
+symbol `?` denotes, every other symbol loses exactly the gap state, and `?` without gaps-as-missing is that set plus the gap state. -/
+theorem table_ok : C16Alphabets.alphabets.all (fun a =>
+    match a.2.find? (fun e => e.1 == 45), a.2.find? (fun e => e.1 == 63) with
+    | some (_, gap, _), some (_, qfull, qmiss) =>
+      qmiss &&& gap == 0 && qfull == (qmiss ||| gap) &&
+      a.2.all (fun e => e.2.1 != 0 && e.2.2 != 0 &&
+        (if e.1 == 45 then e.2.2 == qmiss else e.2.2 == (e.2.1 &&& qmiss)))
+    | _, _ => false) = true := by decide
+
+theorem table_nonzero : ∀ a, a ∈ C16Alphabets.alphabets → ∀ e, e ∈ a.2 → e.2.1 ≠ 0 ∧ e.2.2 ≠ 0 := by decide
+
+/-- every list of state sets the driver builds from symbols (`rowOfSymbols`, the only source of matrices) is free of empty
+sets, so every rectangular matrix the driver accepts satisfies `RectM` -/
+theorem rowOfSymbols_nonzero (alph : String) (g : Bool) : ∀ (syms : List Char) (row : Row),
+    rowOfSymbols alph g syms = some row → ∀ v, v ∈ row → v ≠ 0
+  | [], row, h => by
+    simp [rowOfSymbols] at h
+    subst h
+    intro v hv; cases hv
+  | c :: cs, row, h => by
+    simp only [rowOfSymbols, List.mapM_cons] at h
+    cases h1 : symbolSet alph g c with
+    | none => simp [h1] at h
+    | some v1 =>
+      cases h2 : List.mapM (symbolSet alph g) cs with
+      | none => simp [h1, h2] at h
+      | some vs =>
+        simp [h1, h2] at h
+        subst h
+        intro v hv
+        rcases List.mem_cons.mp hv with rfl | hv'
+        · exact symbolSet_nonzero table_nonzero alph g c _ h1
+        · exact rowOfSymbols_nonzero alph g cs vs h2 v hv'
 
 /-! ### the hypotheses are satisfiable; the functions compute -/
 
@@ -386,5 +634,26 @@ example : (match parsimony exMatrix (some [2, 5]) [(2, [7, 7, 7])] exTree with
     | .ok st => some (st.score, st.bychar) | .error _ => none) = some (7, [2, 5]) := by decide
 example : (match parsimony exMatrix none [] (reroot [.LL] exTree) with
     | .ok st => some (st.score, st.bychar) | .error _ => none) = some (2, [1, 1]) := by decide
+
+/-- the unrooted form `(t0, t1, t2)` -/
+def exTri : T :=
+  .node 0 none none none [.node 1 (some 0) none none [], .node 2 (some 1) none none [], .node 3 (some 2) none none []]
+
+example : ViewU exMatrix exTri exRows := .unrooted (.leaf rfl) (.leaf rfl) (.leaf rfl)
+example : ViewU exMatrix exTree exRows := .rooted (.node (.node (.leaf rfl) (.leaf rfl)) (.leaf rfl))
+example : (ids exTri).Nodup := by decide
+example : Below (.node 2 (some 0) none none []) exTree :=
+  .deeper (w := .node 1 none none none [.node 2 (some 0) none none [], .node 3 (some 1) none none []])
+    (.child (by simp [exTree, T.cs])) (by simp [T.cs])
+example : (match parsimony exMatrix none [(1, [9, 9])] exTri with
+    | .ok st => some (st.score, st.bychar) | .error _ => none) = some (2, [1, 1]) := by decide
+/-- a weight list that is too short raises IndexError exactly when a character past its end changes -/
+example : (match parsimony exMatrix (some [2]) [] exTree with
+    | .ok _ => "ok" | .error e => e.name) = "IndexError" := by decide
+example : (match parsimony [(0, [1, 3]), (1, [2, 3]), (2, [1, 3])] (some [2]) [] exTree with
+    | .ok st => some (st.score, st.bychar) | .error _ => none) = some (2, [2, 0]) := by decide
+/-- histories with a failing call (no row for taxon 2) between good ones are inside `history_eq_fresh` -/
+example : (refHist exTree 1 [.score 0 exMatrix none, .score 0 [(0, [1]), (1, [1])] none, .clone 0, .score 1 exMatrix none]).length = 4 := by
+  decide
 
 end DendroModel.C16
